@@ -59,9 +59,10 @@ func scanSummaries(debugPrints *int) map[string]Summary {
 // scanRegion builds the region for one loop iteration of a generated Scan.
 func scanRegion(fn *ssa.Function, head *ssa.BasicBlock, prints *int) *Region {
 	reg := &Region{
-		Fn:    fn,
-		Start: head,
-		Cuts:  cutSet(head),
+		Fn:            fn,
+		Start:         head,
+		Cuts:          cutSet(head),
+		StalePrologue: true,
 		PhiInputs: map[string]Val{
 			"start": VSym{Name: "START"}, "startLine": VSym{Name: "SL"}, "startColumn": VSym{Name: "SC"},
 			"end": VSym{Name: "END"}, "state": VSym{Name: "STATE"},
